@@ -394,7 +394,13 @@ func (ex *Exec) sortSlice(a []Value, fr *Frame, pos token.Pos) Value {
 	// insertion sort (stable) driven through the interpreted less function
 	for i := 1; i < sl.n; i++ {
 		for j := i; j > 0; j-- {
-			r := ex.callValue(less, []Value{bvConst(64, uint64(j)), bvConst(64, uint64(j-1))}, fr, pos).(*Term)
+			r, ok := ex.lessOrUnknown(less, j, j-1, fr, pos)
+			if !ok {
+				// the comparison needs the content of symbolic strings (rendered numbers inside messages):
+				// the order of such elements is left as is; recorded as a stub approximation
+				ex.stubsHit["sort.Slice: order of symbolic strings not modelled"]++
+				return nil
+			}
 			if !ex.decide(r) {
 				break
 			}
@@ -404,6 +410,19 @@ func (ex *Exec) sortSlice(a []Value, fr *Frame, pos token.Pos) Value {
 		}
 	}
 	return nil
+}
+
+func (ex *Exec) lessOrUnknown(less *FuncV, i, j int, fr *Frame, pos token.Pos) (r *Term, ok bool) {
+	defer func() {
+		if p := recover(); p != nil {
+			if u, isU := p.(unsupported); isU && strings.Contains(u.what, "string compare") {
+				r, ok = nil, false
+				return
+			}
+			panic(p)
+		}
+	}()
+	return ex.callValue(less, []Value{bvConst(64, uint64(i)), bvConst(64, uint64(j))}, fr, pos).(*Term), true
 }
 
 // ---------- errors ----------
@@ -473,7 +492,7 @@ func (ex *Exec) unwrapErr(err IfaceV, fr *Frame) IfaceV {
 	if err.typ == nil {
 		return IfaceV{}
 	}
-	fn := ex.prog.LookupMethod(err.typ, nil, "Unwrap")
+	fn := ex.lookupMethod(err.typ, "Unwrap")
 	if fn == nil {
 		return IfaceV{}
 	}
@@ -505,7 +524,7 @@ func (ex *Exec) errorsAs(a []Value, fr *Frame, pos token.Pos) Value {
 			ex.store(target.v.(Ptr).c, err.v)
 			return termTrue
 		}
-		if asFn := ex.prog.LookupMethod(err.typ, nil, "As"); asFn != nil {
+		if asFn := ex.lookupMethod(err.typ, "As"); asFn != nil {
 			r := ex.callFunction(asFn, []Value{err.v, target}, nil, fr, pos).(*Term)
 			if ex.decide(r) {
 				return termTrue
@@ -534,7 +553,7 @@ func (ex *Exec) errorMessage(v IfaceV, fr *Frame) (msg string, ok bool) {
 	if v.typ == nil {
 		return "<nil>", true
 	}
-	fn := ex.prog.LookupMethod(v.typ, nil, "Error")
+	fn := ex.lookupMethod(v.typ, "Error")
 	if fn == nil {
 		return "", false
 	}
@@ -643,7 +662,7 @@ func (ex *Exec) formatArg(spec string, verb byte, arg Value, fr *Frame) StrV {
 			msg, _ := ex.errorMessage(iv, fr)
 			return StrV{s: msg}
 		}
-		if fn := ex.prog.LookupMethod(iv.typ, nil, "String"); fn != nil && fn.Signature.Params().Len() == 0 && fn.Signature.Results().Len() == 1 {
+		if fn := ex.lookupMethod(iv.typ, "String"); fn != nil && fn.Signature.Params().Len() == 0 && fn.Signature.Results().Len() == 1 {
 			if p, isP := iv.v.(Ptr); !(isP && p.c == nil) {
 				func() {
 					defer func() {
